@@ -68,7 +68,7 @@ def run(check: Check) -> None:
         "by an independent label parser; with ensure_full_rank=False also the exact expected list of labels (term by term, first factor fastest)."
     )
     check.info["rule"] = "configuration = (term family, intercept, ensure_full_rank, output); distinct = distinct (formula, options)"
-    check.bounds.update({"rows": mc.NROWS, "terms_per_formula": "<=3 (+ hierarchical f*g / f*g*h families of 3 / 7 terms)", "factors_per_term": "<=3", "levels": "A:3, B:2",
+    check.bounds.update({"rows": "7 (crossed), 1, 3 (B with one level)", "terms_per_formula": "<=3 (+ hierarchical f*g / f*g*h families of 3 / 7 terms)", "factors_per_term": "<=3", "levels": "A:3, B:2",
                          "literal_scalings": ["2.5", "3"], "outputs": ["pandas", "numpy"], "index_kinds": ["default", "permuted integers", "strings", "non-unique"]})
     check.out_of_scope += ["sparse output, numeric data as DataFrame columns (Series branch of the encoders) and the narwhals materializer are NOT solver-decided: scipy/narwhals cannot hold symbolic cells; the same oracle is run natively at one generic point per configuration (group matrix.other_branches/ground)",
                            "non-treatment contrasts (C11)", "more than 3 terms / 3 factors per term"]
@@ -90,12 +90,15 @@ def _case(check: Check, case, record=False):
     famspec, intercept, efr, out = case
     fam = [mc.T(f, l, lf) for f, l, lf in famspec]
     tmo = 60000 if check.tier == "thorough" else 10000
-    n = mc.NROWS
     formula = mc.render_formula(fam, intercept)
     ident = f"{formula} | efr={efr} | {out}"
+    # "any row count >= 1, any level sets": most configurations use the crossed 7-row layout, a stable slice of them a single row
+    # or a factor with a single level
+    layout = {0: "one-row", 1: "one-level-B"}.get(zlib.crc32(("L" + ident).encode()) % 6, "crossed7")
+    n = len(mc.LAYOUTS[layout][0])
     # the index of the data frame is part of "all data": a stable function of the configuration picks one of four kinds
     index = ["default", "permuted", "string", "nonunique"][zlib.crc32(ident.encode()) % 4]
-    df = mc.cat_frame(index=index)
+    df = mc.layout_frame(layout, index=index)
     if True:
         def fn(formula=formula, efr=efr, out=out):
             a, b = sym_ab(n)
@@ -107,7 +110,7 @@ def _case(check: Check, case, record=False):
             labels, cells = mc.matrix_cells(mm, out)
             if out == "pandas":
                 yield "pandas labels == spec.column_names", list(mm.columns) == labels
-            w = mc.world([z3.Real(f"a{i}") for i in range(n)], [z3.Real(f"b{i}") for i in range(n)], one=z3.RealVal(1), zero=z3.RealVal(0), two=z3.RealVal(2))
+            w = mc.layout_world(layout, [z3.Real(f"a{i}") for i in range(n)], [z3.Real(f"b{i}") for i in range(n)], one=z3.RealVal(1), zero=z3.RealVal(0), two=z3.RealVal(2))
             yield "shape", bool(cells.shape == (n, len(labels)))
             conj = []
             for j, label in enumerate(labels):
@@ -122,7 +125,7 @@ def _case(check: Check, case, record=False):
                 yield "ensure_full_rank=False: complete Kronecker label list in term order", labels == exp
 
         def rep(model, label, formula=formula, efr=efr, out=out, fam=fam):
-            p = {"kind": "c02_matrix", "formula": formula, "efr": efr, "output": out, "index": index,
+            p = {"kind": "c02_matrix", "formula": formula, "efr": efr, "output": out, "index": index, "layout": layout,
                  "terms": [[list(t.factors), list(t.lits)] for t in fam]}
             generic = dict(p, a=[float(i) * 1.25 + 0.5 for i in range(n)], b=[(float(3 * i + 1) % 7) * 0.75 - 1.3 for i in range(n)])
             cands = [generic]
@@ -137,7 +140,7 @@ def _case(check: Check, case, record=False):
         # ground companion (NOT solver-decided): the same label oracle at one generic point through the branches symbolic cells
         # cannot reach - numeric data as DataFrame columns (Series branch of the encoders), sparse output, narwhals materializer
         if out == "pandas":
-            base = {"kind": "c02_matrix", "formula": formula, "efr": efr, "terms": [[list(t.factors), list(t.lits)] for t in fam],
+            base = {"kind": "c02_matrix", "formula": formula, "efr": efr, "layout": layout, "terms": [[list(t.factors), list(t.lits)] for t in fam],
                     "a": [float(i) * 1.25 + 0.5 for i in range(n)], "b": [(float(3 * i + 1) % 7) * 0.75 - 1.3 for i in range(n)]}
             other = "permuted" if index != "permuted" else "nonunique"
             for extra in ({"output": "pandas", "index": other}, {"output": "numpy", "index": other}, {"output": "sparse", "index": index},
@@ -145,7 +148,10 @@ def _case(check: Check, case, record=False):
                 bad = replays.run({**base, **extra})
                 check.obligation("matrix.other_branches/ground", "refuted" if bad else "ground")
                 if bad:
-                    check.violation(f"matrix(efr={efr},{extra})::{bad.split(':', 1)[0]}", bad, {**base, **extra})
+                    cls = f"efr={efr},{extra}"
+                    if extra.get("materializer") == "narwhals" and "C(" in formula and layout == "one-row":
+                        cls = "narwhals materializer,C(),declared-but-unobserved levels"  # the input class of the finding recorded under C05
+                    check.violation(f"matrix({cls})::{bad.split(':', 1)[0]}", bad, {**base, **extra})
         rig.run_sym(check, "matrix", fn, claims, replay=rep, timeout_ms=tmo, case_id=ident,
-                    sample={"formula": formula, "ensure_full_rank": efr, "output": out, "index": index, "data": "a,b in R^7 symbolic; A,B crossed"},
+                    sample={"formula": formula, "ensure_full_rank": efr, "output": out, "index": index, "layout": layout, "data": "a,b symbolic in every row"},
                     record=record)
